@@ -8,6 +8,10 @@ Decided statically (DESIGN 4/C12):
          cancelled work are refused
   LEAK   a branch that discards a task because it is cancelled also
          releases it  (known finding: the two `continue`s)
+  REFUSE the server declines a cancel only for unknown / already cancelled /
+         foreign tasks
+  FRESH  mailbox ids come from monotone counters (a late result for a
+         dropped mailbox can never find a newer one)
 """
 from __future__ import annotations
 
@@ -17,6 +21,7 @@ from ..engine import Ctx
 from ..report import Report
 from ..rules import q
 from ..rules import runtime as R
+from ..rules.fresh import rule_fresh
 from ..source import AnalysisError
 from ..source import norm
 
@@ -37,7 +42,84 @@ def run(ctx: Ctx, rep: Report) -> None:
     ]
     cover(ctx, rep)
     must(ctx, rep)
+    refuse(ctx, rep)
     leak(ctx, rep)
+    # a late RESULT for a cancelled mailbox is dropped because its id names
+    # nothing; that needs ids never to be handed out twice
+    rule_fresh(
+        ctx, rep, R.WORKER, '_get_new_mailbox_id', 'self._mailbox_counter',
+        None, 'a cancelled mailbox\'s late result must not find a newer '
+        'mailbox under the same id',
+    )
+    rule_fresh(
+        ctx, rep, R.DET, '_get_new_mailbox_id', 'self.mailbox_counter', None,
+        'a cancelled compilation\'s late result must not find a newer '
+        'compilation\'s mailbox under the same id', also=(R.ATT,),
+    )
+
+
+def refuse(ctx: Ctx, rep: Report) -> None:
+    """REFUSE: the server declines a cancel request only for a task that is
+    unknown, already cancelled (mailbox gone) or owned by somebody else.
+    Every test that decides between the dropping path and a return without
+    dropping is split into its and/or/not leaves; each leaf must be a
+    membership test on the task or mailbox table or mention the requesting
+    connection.  A leaf reading anything else (e.g. the state of the
+    mailbox) means some cancel of a live, owned task leaves its mailbox and
+    result on the server."""
+    f = ctx.fn(R.DET + '.handle_cancel_comp_task')
+    g = ctx.cfg(f)
+    pop = g.ids(q.has_call('self.mailboxes.pop'))
+    if not pop:
+        return  # reported by MUST server-cancel
+    n = 0
+    for t in g.nodes:
+        if t.kind != 'test':
+            continue
+        labs = {lab for _b, lab in g.succ[t.id]}
+        if not ({'true', 'false'} <= labs):
+            continue
+        reach_pop = {
+            lab: bool(g.reach([b for b, l in g.succ[t.id] if l == lab])
+                      & pop) for lab in ('true', 'false')}
+        skip = {
+            lab: g.exit in g.reach(
+                [b for b, l in g.succ[t.id] if l == lab], blocked=pop)
+            for lab in ('true', 'false')}
+        if not any(reach_pop.values()) or not any(skip.values()):
+            continue
+        if t.id not in g.reach([g.entry], blocked=pop):
+            continue
+        n += 1
+        for leaf in _leaves(t.stmt.test):
+            rep.count()
+            txt = norm(leaf)
+            ok = (
+                isinstance(leaf, ast.Compare) and len(leaf.ops) == 1
+                and isinstance(leaf.ops[0], (ast.In, ast.NotIn))
+                and norm(leaf.comparators[0]) in (
+                    'self.tasks', 'self.mailboxes')
+            ) or any(isinstance(x, ast.Name) and x.id == 'conn'
+                     for x in ast.walk(leaf))
+            rep.check(
+                ok, 'REFUSE', 'DetachedServer.handle_cancel_comp_task',
+                f.path, leaf.lineno,
+                f'`{txt}` is an unknown/cancelled/foreign-task condition',
+                f'a cancel request can be declined because of `{txt}`, '
+                'which is neither "unknown task", "mailbox already gone" '
+                'nor "not the caller\'s task": the cancelled compilation\'s '
+                'mailbox (and any stored result) stays on the server',
+                key=txt,
+            )
+    rep.floor('REFUSE', n, 1, 'deciding tests in handle_cancel_comp_task')
+
+
+def _leaves(e: ast.AST) -> list[ast.AST]:
+    if isinstance(e, ast.BoolOp):
+        return [x for v in e.values for x in _leaves(v)]
+    if isinstance(e, ast.UnaryOp) and isinstance(e.op, ast.Not):
+        return _leaves(e.operand)
+    return [e]
 
 
 def _containers(ctx: Ctx) -> dict[str, str]:
